@@ -25,12 +25,15 @@ def all_storage_facts():
 
 
 DRV_FACT_NAMES = ["rejectsEmptyKey", "rejectsLongKey", "flushCmp", "flushAtCount", "deleteRemoves", "validatesCrc", "validatesULen",
-                  "boundsCompressedSize", "boundsDecodedLen", "parseConsumesAll", "v2Fallback", "rejectsLongName"]
+                  "boundsCompressedSize", "boundsDecodedLen", "parseConsumesAll", "shortPayloadIsEOF", "chronSurfacesError", "openCutsTornTail", "v2Fallback", "rejectsLongName"]
 
 
 def drv_args(own_facts):
     allf = all_storage_facts()
     allf.update(own_facts)
+    # the model's flag means "the API caller learns about a refused key": by Write itself or by validation above it
+    if allf.get("apiValidatesKeys") == "yes":
+        allf["chronSurfacesError"] = "yes"
     return ["%s=%s" % (k, allf.get(k, "unknown")) for k in DRV_FACT_NAMES]
 
 
@@ -83,6 +86,9 @@ class HistoryOracle:
         self.block_size = 0
         self.run = 0
         self.exists = False
+        self.compactions = 0
+        self.valid = {}             # chronicler mode: state without the unencodable keys
+        self.dropped_invalid = False
 
     def ack(self, e):
         self.pending.append(e)
@@ -119,16 +125,18 @@ class HistoryOracle:
 
     def signature(self):
         """which recorded defect (if any) explains a wrong load in this case"""
+        if self.dropped_invalid:
+            return None
         if self.has_empty_key:
             return "C01-empty-key-accepted"
         if self.has_long_key:
             return "C01-long-key-accepted"
-        if self.max_unflushed_run > 65535:
+        if self.max_unflushed_run > 65535 or (self.compactions and len(self.base) > 65535):
             return "C01-block-entry-count-overflow"
         return None
 
 
-def history_oracle(ops, impl):
+def history_oracle(ops, impl, api_validates=False):
     """Walks op lines + implementation replies of the C01/C29 storage domain.
     Returns a list of (line index, what, signature-or-None)."""
     bad = []
@@ -149,27 +157,55 @@ def history_oracle(ops, impl):
             okc = n if rep == "ok" else 0
             for j in range(okc):
                 o.ack((1, gen_bytes(kl, st + j), gen_bytes(dl, st + j)))
+        elif f[0] == "wb" and rep == "ok":
+            n, kl, dl, st = map(int, f[1:5])
+            for j in range(n):
+                o.ack((1, gen_bytes(kl, st + j), gen_bytes(dl, st + j)))
+        elif f[0] == "wk":
+            n, dl, st = map(int, f[1:4])
+            okc = n if rep == "ok" else 0
+            for j in range(okc):
+                o.ack((1, struct.pack("<I", st + j), gen_bytes(dl, st + j)))
         elif f[0] in ("flush", "sync", "close") and rep == "ok":
             o.flushed()
+        elif f[0] == "compact" and rep == "ok":
+            o.compactions += 1          # the state must not change; a large live set may now sit in few blocks
         elif f[0] == "ccfg":
             o = HistoryOracle()
             o.exists = True
-        elif f[0] in ("cw", "cd") and rep == "ok":
-            k = spec_bytes(f[1])
-            # the chronicler logs and drops what the writer refuses; a key the format cannot carry
-            # must not be stored at all
-            if 0 < len(k) <= 65535:
-                o.ack((1, k, spec_bytes(f[2])) if f[0] == "cw" else (3, k, b""))
+        elif f[0] in ("cw", "cd", "cwb") and rep == "ok":
+            # `Write` has no result: whatever it was handed, its caller believes stored.  `valid`
+            # is the same history without the keys the format cannot carry (what a chronicler that
+            # silently drops them would leave behind).
+            items = []
+            if f[0] == "cw":
+                items = [(1, spec_bytes(f[1]), spec_bytes(f[2]))]
+            elif f[0] == "cd":
+                items = [(3, spec_bytes(f[1]), b"")]
             else:
-                o.has_empty_key |= len(k) == 0
-                o.has_long_key |= len(k) > 65535
+                for it in f[1].split(";"):
+                    kind, ks, vs = it.split("|")
+                    items.append((3, spec_bytes(ks), b"") if kind == "d" else ({"i": 1, "u": 2}[kind], spec_bytes(ks), spec_bytes(vs)))
+            for e in items:
+                o.ack(e)
+                if 0 < len(e[1]) <= 65535:
+                    apply_entry(o.valid, e)
+                else:
+                    o.dropped_invalid = True
         elif f[0] == "cclose" and rep == "ok":
             o.flushed()
         elif f[0] == "cload":
             got = rep.split(" ")[1] if rep.startswith("cidx ") else rep
             cands, _ = o.candidates()
             if got not in cands:
-                bad.append((i, "after `cload`: a fresh chronicler loaded %s, the writes give %s" % (got[:60], sorted(cands)[:3]), o.signature()))
+                sig = o.signature()
+                if o.dropped_invalid and not o.pending:
+                    # known shape: exactly the unencodable keys are missing, everything else is there
+                    sig = "C01-chronicler-drops-refused-entry" if got == index_digest(o.valid) else None
+                    if sig and api_validates:
+                        continue   # below the API: the gateway refuses such keys, a direct Write of one is not an API history
+                bad.append((i, "after `cload`: a fresh chronicler loaded %s, but Write was handed (and reported nothing about) %s"
+                            % (got[:60], sorted(cands)[:3]), sig))
         elif f[0] in ("load", "raw"):
             if f[0] == "load":
                 if rep.startswith("idx "):
